@@ -4,6 +4,7 @@ from props import _generic as g
 
 def run(ctx):
     fns = g.run_pyvc(ctx, "C03")
+    g.run_funlink(ctx)
     ctx.cvc(["II", "OO"] if ctx.tier == "quick" else ["II", "OO", "LF", "QQ", "fs"], ["F-SPLIT"], functions=["bucket_split", "BTree_split"])
     ctx.standin("hist_rt", families=("OO", "II") if ctx.tier == "quick" else ("OO", "II", "LF", "QQ", "fs", "IO", "UU", "LL"),
                 args=["--mode", "wf"])
@@ -20,6 +21,8 @@ def run(ctx):
         "the left half is untouched, next->next == old self->next and self->next == next, the change is registered; its one "
         "caller passes the index the contract requires; BTree_split likewise (items copied whole - child and separator -, and the new "
         "node's firstbucket is its first child when that is a leaf, that child's own firstbucket, read after activating it, when it is "
-        "a node). Key containment within separator ranges, node-size "
+        "a node). F-UNLINK: in the C _BTree_set the node asked to unlink an emptied first leaf is always the LEFT sibling "
+        "(d[-1].child) of the child the deletion descended into, and status 2 is passed up only by a deletion that descended into the "
+        "node's first child (the clauses of the first-bucket protocol that the Python proof states in full). Key containment within separator ranges, node-size "
         "limits, and the rest of the C implementation are checked after every call of bounded histories by the stand-in hist_rt (wf mode: "
         "independent walker + _check() + BTrees.check.check())." % len(fns))
